@@ -1,6 +1,7 @@
 """C07 -- mismatches are always describable; assertThat/expectThat report them faithfully."""
 
 import ast
+import os
 
 from ..absint import NONE, NOTNONE, TOP, DefaultDomain, Interp, State, exc, val
 from ..alias import Aliases
@@ -342,7 +343,9 @@ def _format_site_safe_for_tuples(ctx, f, site, params):
         dom.hit = False
         try:
             res = effects.run(ctx, dom, f, ci, {p: TRIPLE}, state=State(), depth=4)
-        except (Undecided, AnalysisError, RecursionError):
+        except (Undecided, AnalysisError, RecursionError) as e_:
+            if os.environ.get("TTSA_TRACE_PROBE"):
+                print("PROBE-UNDECIDED", f.name, e_)
             return None
         if not res:
             return None
